@@ -9,7 +9,8 @@
    them in map iteration order, so for values with a multi-entry map (multi_map v = true) the
    theorems speak of one of the orders Marshal can produce (finding map-order). *)
 From Common Require Import Bytes Outcome.
-From Scale Require Import Compact CompactProofs Types Spec Codec FieldOrder EncodeProofs RoundTrip.
+From Coq Require Import Permutation Sorted.
+From Scale Require Import Compact CompactProofs Types Spec Codec FieldOrder FieldOrderProofs EncodeProofs RoundTrip.
 From C11 Require Import Model Proofs.
 Local Open Scope N_scope.
 
@@ -58,6 +59,27 @@ Theorem C11_encode_prefix_refuted : exists t v,
   wf_ty t = true /\ has_type v t = true /\ encode_prefix t v = Panic.
 Proof. exact encode_prefix_refuted. Qed.
 Print Assumptions C11_encode_prefix_refuted.
+
+(* struct field order (scale:"n" tags; model of fieldScaleIndices, compared with Marshal by the
+   `order` cases of the harness): the encoding order lists every field exactly once, and when no
+   tag is repeated it is the only sequence sorted by the comparison handed to sort.Slice (tagged
+   fields by ascending tag, then the untagged ones in declaration order), whatever the (unstable)
+   sorting algorithm does *)
+Theorem C11_field_order_perm : forall tags,
+  Permutation (seq 0 (length tags)) (field_order tags).
+Proof. exact field_order_perm. Qed.
+Print Assumptions C11_field_order_perm.
+
+Theorem C11_field_order_unique : forall tags sorted,
+  tags_distinct_prop tags ->
+  Permutation (indexed 0 tags) sorted -> StronglySorted notafter sorted ->
+  map fst sorted = field_order tags.
+Proof. exact field_order_unique. Qed.
+Print Assumptions C11_field_order_unique.
+
+Example C11_field_order_example :
+  field_order [FIdx 2; FNone; FIdx 0; FNone; FIdx 1] = [2; 4; 0; 1; 3]%nat.
+Proof. reflexivity. Qed.
 
 (* compact integers: the spec decoder inverts the canonical encoder on the whole range, and
    accepts nothing but canonical encodings *)
